@@ -405,6 +405,14 @@ def rewrite_body(text, rules_log, intended_panics=False, keep_asserts=False):
                         rules_log.append(("R2", atxt + " dropped (platform: Linux)"))
                         i = k + 1
                         continue
+                    if atxt in ("#[cfg(not(unix))]", "#[cfg(windows)]", '#[cfg(target_os="windows")]'):
+                        # the item/block/statement this attribute guards does not exist on Linux: dropped with it
+                        nx = _next_sig(toks, k + 1)
+                        if nx < n and toks[nx].text == "{":
+                            endb = match_close(toks, nx)
+                            rules_log.append(("R2", atxt + " { .. } dropped (platform: Linux)"))
+                            i = endb + 1
+                            continue
                     raise ExtractError("cfg attribute inside extracted body: " + "".join(x.text for x in toks[i:k + 1]))
         # macro calls
         if t.kind == "ident":
@@ -815,12 +823,16 @@ R9_RULES = [
             "({ let mut r9_q = $$e; let mut $acc = $$i; while r9_q.len() > 0 { let ($a, $b, $c) = vec_take_first(&mut r9_q); $acc = {", "} )", "}; } $acc })"),
     ("R9p", "$$e . iter ( ) . for_each ( | $x | {",
             "let mut r9_n: usize = 0; while r9_n < $$e.len() { let $x = &$$e[r9_n]; r9_n = r9_n + 1; {", "} )", "} }"),
+    ("R9q", "$$e . into_iter ( ) . map ( | $x | $$b ) . collect ( )",
+            "({ let mut r9_q = $$e; let mut r9_out = Vec::new(); while r9_q.len() > 0 { let $x = vec_take_first(&mut r9_q); r9_out.push($$b); } r9_out })"),
     ("R9g", "$$e . iter ( ) . any ( | $x | $$c )",
             "({ let mut r9_any = false; let mut r9_k: usize = 0; while r9_k < $$e.len() && !r9_any { let $x = &$$e[r9_k]; if $$c { r9_any = true; } r9_k = r9_k + 1; } r9_any })"),
     ("R9i", "$$e . as_mut ( ) . and_then ( | $x | $x . pop_front ( ) )",
             "(match $$e.as_mut() { Some($x) => $x.pop_front(), None => None })"),
     ("R9h", "for $x in $$e . values ( ) {",
             "let mut r9_n: usize = 0; let r9_len: usize = $$e.len(); while r9_n < r9_len { let $x = $$e.nth_value_mut(r9_n); r9_n = r9_n + 1;"),
+    ("R9r", "for ( $a , $b ) in $$e . iter_mut ( ) {",
+            "let mut r9_n: usize = 0; while r9_n < $$e.len() { let r9_p = &mut $$e[r9_n]; let $a = &r9_p.0; let $b = &mut r9_p.1; r9_n = r9_n + 1;"),
     ("R9k", "for $x in $$e . iter_mut ( ) {",
             "let mut r9_n: usize = 0; while r9_n < $$e.len() { let $x = &mut $$e[r9_n]; r9_n = r9_n + 1;"),
     ("R9j", "for $x in $e {",
@@ -979,4 +991,69 @@ def trace_awaits(body, rules_log):
         n_done += 1
     first = body.index("{")
     body = body[:first + 1] + "\n        let ghost mut r21_trace: Seq<AwaitTag> = Seq::empty();" + body[first + 1:]
+    return body
+
+
+# ------------------------------------------------------------------ R24: call trace
+def trace_calls(body, names, rules_log):
+    """R24: every method call `RECV.NAME(ARGS)` with NAME in `names` becomes
+    `({ let r24_v = RECV.NAME(ARGS); proof { r24_trace = r24_trace.push(K); } r24_v })` (K = index of NAME in names),
+    and the body starts with `let ghost mut r24_trace: Seq<int> = Seq::empty();` -- the ORDER in which the function
+    performs these effects is then available to its inserted assertions."""
+    done_pos = set()
+    n_done = 0
+    while True:
+        toks = full_tokens(body)
+        sig = [i for i, t in enumerate(toks) if t.kind not in ("ws", "comment")]
+        hit = None
+        for q, i in enumerate(sig):
+            if toks[i].kind == "ident" and toks[i].text in names and q >= 2 and toks[sig[q - 1]].text == "." \
+                    and q + 1 < len(sig) and toks[sig[q + 1]].text == "(":
+                # already wrapped?  (preceded by `let r24_v = ` at chain start is hard to see: use a marker comment)
+                close = match_close(toks, sig[q + 1])
+                after = "".join(t.text for t in toks[close + 1:close + 12])
+                if after.startswith("/*r24*/"):
+                    continue
+                hit = (q, close); break
+        if hit is None:
+            break
+        q, close = hit
+        k = q - 2          # last token of RECV
+        start = None
+        while k >= 0:
+            t = toks[sig[k]]
+            if t.kind == "punct" and t.text in (")", "]"):
+                depth = 0; j = sig[k]
+                while j >= 0:
+                    if toks[j].kind == "punct" and toks[j].text in CLOSE: depth += 1
+                    elif toks[j].kind == "punct" and toks[j].text in OPEN:
+                        depth -= 1
+                        if depth == 0: break
+                    j -= 1
+                k = sig.index(j)
+                start = k
+                if k - 1 >= 0 and (toks[sig[k - 1]].kind == "ident" and toks[sig[k - 1]].text not in KEYWORDS or toks[sig[k - 1]].text in (")", "]", ">")):
+                    k -= 1; continue
+                break
+            if t.kind == "ident" and t.text not in KEYWORDS:
+                start = k
+                if k - 1 >= 0 and toks[sig[k - 1]].text in (".", "::"):
+                    k -= 2; continue
+                break
+            raise ExtractError("R24 refused: cannot delimit the receiver of `.%s(`" % toks[sig[q]].text)
+        if start is None:
+            raise ExtractError("R24 refused: cannot delimit the receiver of `.%s(`" % toks[sig[q]].text)
+        a = sig[start]
+        expr = "".join(t.text for t in toks[a:close + 1])
+        idx = names.index(toks[sig[q]].text)
+        # the marker keeps the rewritten call from being matched again (it sits right after the inner call)
+        inner = "".join(t.text for t in toks[a:close + 1]) + "/*r24*/"
+        body = ("".join(t.text for t in toks[:a]) + "({ let r24_v = " + inner + "; proof { r24_trace = r24_trace.push(%dint); } r24_v })" % idx
+                + "".join(t.text for t in toks[close + 1:]))
+        rules_log.append(("R24", f"`{norm(expr)[:120]}`: recorded as event {idx} ({toks[sig[q]].text}) in the ghost trace r24_trace"))
+        n_done += 1
+        if n_done > 50:
+            raise ExtractError("R24 refused: too many traced calls")
+    first = body.index("{")
+    body = body[:first + 1] + "\n        let ghost mut r24_trace: Seq<int> = Seq::empty();" + body[first + 1:]
     return body
